@@ -349,6 +349,7 @@ func (h *Session) purge(now time.Time) error {
 	}
 
 	// delete after loop because this will change the table
+	verifGate("purge.delete")
 	if len(purge) > 0 {
 		h.mutex.Lock()
 		for _, v := range purge {
@@ -432,6 +433,7 @@ func (h *Session) notify(frame Frame) {
 	}
 
 	// lock row for update
+	verifGate("notify.write")
 	frame.Host.MACEntry.Row.Lock()
 	notification := toNotification(frame.Host)
 	frame.Host.dirty = false
